@@ -125,15 +125,16 @@ theorem T04_thermal_lo_trace_preserved (n q : Nat) (hq : q < n) (p0 p1 e : α) (
 /-! ### depolarizing channel -/
 
 /-- full statement: on every duplicate-free ordered tuple `qs` the partial-trace fast path
-(`c0 = 1 - lam`, `w = lam / 2^k` with `lam = 4^k u`) equals the Pauli-twirl Kraus map. -/
+(`c0 = 1 - lam`, `w = lam / 2^k` with `lam = 4^k u`) equals the Pauli-twirl Kraus map.
+Proved in part b (QV/Props/C04b.lean, `T04_depolarizing_fast_eq_kraus_full_proved`). -/
 def T04_depolarizing_fast_eq_kraus_full : Prop :=
   ∀ (α : Type) [CommRing α] (conj : α →+* α) (I u : α), I * I = -1 → conj I = -I →
     ∀ (qs : List Nat), qs.Nodup → ∀ ρ : DM α,
       depolFast (1 - 4 ^ qs.length * u) (2 ^ qs.length * u) qs ρ
         = applyChannelDM conj (depolChan I u qs) ρ
 
-/-- proved for one qubit at any position (for `k ≥ 2` the equality is covered by the exact
-correspondence on every ordered tuple). -/
+/-- the one-qubit case at any position (every `k`: `T04_depolarizing_fast_eq_kraus_full_proved` in
+part b). -/
 theorem T04_depolarizing_fast_eq_kraus_partial (conj : α →+* α) (I u : α) (hI : I * I = -1)
     (hcI : conj I = -I) (q : Nat) (ρ : DM α) :
     depolFast (1 - 4 * u) (2 * u) [q] ρ = applyChannelDM conj (depolChan I u [q]) ρ := by
